@@ -3,7 +3,8 @@ import RpgpProofs.S2k
 /-!
 # Proofs about `RpgpModel/Kdf.lean` (helper lemmas for `RpgpProps/C12.lean`)
 -/
-namespace Rpgp
+namespace Rpgp.Sym
+open Rpgp
 open Ecdh
 
 theorem pad_eq (x : Bytes) :
@@ -66,9 +67,9 @@ theorem all_eq_replicate (l : Bytes) (b : Byte) (h : l.any (fun x => x ≠ b) = 
     simp only [List.length_cons, List.replicate_succ]
     rw [← ih h.2, h.1]
 
-/-- what the reader strips is `k` octets of value `k`, `k` being the last octet — including `k = 0` -/
+/-- what the reader strips is `k ≥ 1` octets of value `k`, `k` being the last octet -/
 theorem unpad_sound (d x : Bytes) (h : unpad d = some x) :
-    d.length % 8 = 0 ∧ x ≠ [] ∧
+    d.length % 8 = 0 ∧ x ≠ [] ∧ 1 ≤ (d.getLastD 0).toNat ∧
       d = x ++ List.replicate (d.getLastD 0).toNat (d.getLastD 0) := by
   have e1 : Gen.ecdhUnpadBlock = 8 := rfl
   unfold unpad at h
@@ -80,7 +81,7 @@ theorem unpad_sound (d x : Bytes) (h : unpad d = some x) :
     by_cases c2 : d = []
     · rw [if_pos c2] at h; cases h
     · rw [if_neg c2] at h
-      by_cases c3 : p.toNat > d.length
+      by_cases c3 : p.toNat = 0 ∨ p.toNat > d.length
       · rw [if_pos c3] at h; cases h
       · rw [if_neg c3] at h
         by_cases c4 : (d.drop (d.length - p.toNat)).any (fun b => b ≠ p) = true
@@ -90,7 +91,7 @@ theorem unpad_sound (d x : Bytes) (h : unpad d = some x) :
           · rw [if_pos c5] at h; cases h
           · rw [if_neg c5] at h
             injection h with hx
-            refine ⟨by omega, by rw [← hx]; exact c5, ?_⟩
+            refine ⟨by omega, by rw [← hx]; exact c5, by omega, ?_⟩
             have hrep := all_eq_replicate (d.drop (d.length - p.toNat)) p (by
               cases hb : (d.drop (d.length - p.toNat)).any (fun b => decide (b ≠ p))
               · rfl
@@ -100,16 +101,14 @@ theorem unpad_sound (d x : Bytes) (h : unpad d = some x) :
             rw [hk] at hrep
             rw [← hx, ← hrep, List.take_append_drop]
 
-/-- the code as it stands accepts a padding octet of value 0 (nothing is stripped) -/
-theorem unpad_accepts_zero_pad : unpad [1, 2, 3, 4, 5, 6, 7, 0] = some [1, 2, 3, 4, 5, 6, 7, 0] := by decide
-
-/-- … but such a key has a length that is a multiple of 8 -/
-theorem unpad_zero_pad_length (d x : Bytes) (h : unpad d = some x) (h0 : d.getLastD 0 = 0) :
-    x = d ∧ x.length % 8 = 0 := by
-  obtain ⟨h8, _, hd⟩ := unpad_sound d x h
-  rw [h0] at hd
-  simp at hd
-  exact ⟨hd.symm, by rw [← hd]; exact h8⟩
+/-- a padding octet of value 0 is refused -/
+theorem unpad_zero_pad_refused (d : Bytes) (h0 : d.getLastD 0 = 0) : unpad d = none := by
+  cases h : unpad d with
+  | none => rfl
+  | some x =>
+    have := (unpad_sound d x h).2.2.1
+    rw [h0] at this
+    simp at this
 
 theorem sum16_fold (bs : Bytes) : ∀ acc, acc < 65536 →
     bs.foldl (fun a b => (a + b.toNat) % 65536) acc = (acc + (bs.map UInt8.toNat).sum) % 65536 := by
@@ -177,4 +176,4 @@ theorem Ecdh.wrapPlan_eval (P : Prims) (oid : Bytes) (hash sym : Nat) (fp z plai
     cases h3 : Ecdh.kekPlan hash z (Gen.c12SymKeySize sym) (Ecdh.param oid sym hash fp) <;>
     simp_all [PExpr.eval, bind, Option.bind, pure]
 
-end Rpgp
+end Rpgp.Sym
